@@ -1,7 +1,468 @@
 package main
 
-import "verifharness/pkg/hx"
+// Correspondence cases for coq/model/ExEval.v: calls of the modelled builtins / router tests, the operators,
+// negation and array/object lookups, with what the REAL code returned (kind + exact number / text / rendering),
+// written to cases_C04_<n>.v; coq/model/ExEvalCorr.v runs the model on the same inputs.
+//
+// The compared inputs stay inside what the model represents exactly: texts that reach the word tokenizer or
+// property lookups are ASCII, date values are opaque, no JSON-lazy values, no anonymous functions, no counts
+// that would make the result larger than a few kB (the model would compute it too).
 
-func corrTasks(r *hx.Rand, o *hx.Opts) []*task { return nil }
+import (
+	"fmt"
+	"math/big"
+	"sort"
+	"strings"
+	"time"
 
-func writeCorrespondence(tasks []*task, o *hx.Opts, res *hx.Result) {}
+	"github.com/nyaruka/goflow/excellent/types"
+	"github.com/shopspring/decimal"
+
+	"verifharness/pkg/hx"
+)
+
+var modelledFns = map[string]string{
+	"word": "FWord", "word_slice": "FWordSlice", "field": "FField", "text_slice": "FTextSlice", "char": "FChar",
+	"repeat": "FRepeat", "replace": "FReplace", "round": "FRound", "round_up": "FRoundUp", "round_down": "FRoundDown",
+	"mod": "FMod", "mean": "FMean", "max": "FMax", "min": "FMin", "percent": "FPercent", "format_number": "FFormatNumber",
+	"date_from_parts": "FDateFromParts", "time_from_parts": "FTimeFromParts", "datetime_add": "FDateTimeAdd",
+	"array": "FArray", "object": "FObject", "extract_object": "FExtractObject", "foreach": "FForEach", "has_group": "FHasGroup",
+}
+
+// functions whose result is compared on its kind only (the model does not reproduce the value)
+var kindOnly = map[string]bool{"format_number": true, "date_from_parts": true, "time_from_parts": true, "datetime_add": true}
+
+// functions that may see non-ASCII text (no tokenizer / case folding involved)
+var unicodeOK = map[string]bool{"field": true, "text_slice": true, "char": true, "repeat": true, "replace": true, "array": true}
+
+var corrOps = map[string]string{"op:&": "OConcat", "op:=": "OEq", "op:!=": "ONeq", "op:+": "OAdd", "op:-": "OSub", "op:*": "OMul",
+	"op:/": "ODiv", "op:<": "OLt", "op:<=": "OLte", "op:>": "OGt", "op:>=": "OGte"}
+
+func corrPool() (all []VSpec, ints []VSpec, texts []VSpec) {
+	num := func(s string) VSpec { return named(s, vNum(s)) }
+	ints = []VSpec{num("0"), num("1"), num("-1"), num("2"), num("3"), num("4"), num("5"), num("-2"), num("-3"), num("7"), num("10"), num("100"), num("101"), num("-100"), num("-101"),
+		num("2147483647"), num("2147483648"), num("-2147483648"), num("-2147483649"), num("4294967296"), num("4294967297"),
+		num("9223372036854775807"), num("9223372036854775808"), num("-9223372036854775808"), num("-9223372036854775809"),
+		num("18446744073709551616"), num("18446744073709551619"), num("-18446744073709551615"), num("36893488147419103233"),
+		num("1.5"), num("2.5"), num("-2.5"), num("0.5"), num("-0.5"), num("1.999"), num("-1.999"), num("65.9"), num("128512"), num("55296"), num("1114112"),
+		named("'2'", vText("2")), named("' 3 '", vText(" 3 ")), named("'-1'", vText("-1")), named("'1.0'", vText("1.0")), named("'.5'", vText(".5")), named("'1e3'", vText("1e3")),
+		named("'2147483648'", vText("2147483648")), named("'x'", vText("x")), named("nil", vNil()), named("error", vErr())}
+	texts = []VSpec{named("''", vText("")), named("' '", vText(" ")), named("'abc def ghi'", vText("abc def ghi")), named("'bee.cat,dog'", vText("bee.cat,dog")),
+		named("'a,b,,c'", vText("a,b,,c")), named("'  a   b c '", vText("  a   b c ")), named("'O'Grady $5+3=8 x_y'", vText("O'Grady $5+3=8 x_y")),
+		named("'a\\tb\\nc'", vText("a\tb\nc")), named("'aaaa'", vText("aaaa")), named("'ab'", vText("ab")), named("'a'", vText("a")), named("','", vText(",")), named("'.*=|,'", vText(".*=|,")),
+		named("'hello world'", vText("hello world")), named("'FALSE'", vText("FALSE")), named("'12.50'", vText("12.50")), named("'foo bar foo'", vText("foo bar foo")), named("'foo'", vText("foo")),
+		named("'zap'", vText("zap")), named("'D'", vText("D")), named("'s'", vText("s")), named("'M'", vText("M")), named("'X'", vText("X")), named("'ss'", vText("ss")), named("'uuid-1'", vText("uuid-1")), named("'UUID'", vText("UUID"))}
+	decs := []VSpec{num("0.0"), num("1.50"), num("123.456"), num("-123.456"), num("0.005"), num("-0.005"), num("0.0049"), num("1234567.891"), num("1000000000000000000000000000000"),
+		num("0.000000000000000000000000000001"), num("99.5"), num("-99.5"), num("0.54234"), num("1.2"), num("-0.015"), num("3.14159"), num("10.0"), num("7.00"), num("-7"), num("1E-100"), num("5E+20"),
+		num("0.125"), num("33.333333333333333"), num("2.675"), num("-2.675"), num("1E3")}
+	others := []VSpec{named("true", vBool(true)), named("false", vBool(false)),
+		named("[]", vArr()), named("[1,2,3]", vArr(vNum("1"), vNum("2"), vNum("3"))), named("['a',nil,1.50]", vArr(vText("a"), vNil(), vNum("1.50"))),
+		named("[[1],[2,[3]]]", vArr(vArr(vNum("1")), vArr(vNum("2"), vArr(vNum("3"))))),
+		named("groups", vArr(vObj("name", vText("Testers"), "uuid", vText("uuid-1")), vObj("name", vText("A"), "uuid", vText("a")))),
+		named("[obj,3]", vArr(vObj("uuid", vNum("3")), vNum("3"))), named("[err]", vArr(vErr())),
+		named("{}", vObj()), named("{a:1,b:'x'}", vObj("a", vNum("1"), "b", vText("x"))), named("{A:2,a:1}", vObj("A", vNum("2"), "a", vNum("1"))),
+		named("{uuid:'uuid-1'}", vObj("uuid", vText("uuid-1"))), named("{__default__:5,a:1}", vObj("__default__", vNum("5"), "a", vNum("1"))),
+		named("{__default__:'x y',b:2}", vObj("__default__", vText("x y"), "b", vNum("2"))), named("{n:{m:[1,2]}}", vObj("n", vObj("m", vArr(vNum("1"), vNum("2"))))),
+		named("dt:2018", vDT("2018-04-11T13:24:30.123456-05:00")), named("dt:year1", vDT("0001-01-01T00:00:00Z")),
+		named("fn:word", vFn("word")), named("fn:repeat", vFn("repeat")), named("fn:mod", vFn("mod")), named("fn:foreach", vFn("foreach")), named("fn:array", vFn("array")), named("fn:round", vFn("round")),
+		named("fn:upper", vFn("upper")), named("fn:char", vFn("char")), named("fn:text_slice", vFn("text_slice")), named("fn:mean", vFn("mean"))}
+	all = append(all, ints...)
+	all = append(all, texts...)
+	all = append(all, decs...)
+	all = append(all, others...)
+	return
+}
+
+var nonASCIITexts = []VSpec{named("multibyte", vText("héllo wörld 😀 日本語")), named("nbsp", vText("a b c")), named("'é'", vText("é"))}
+
+func isASCII(v VSpec) bool {
+	for _, c := range v.S {
+		if c > 127 {
+			return false
+		}
+	}
+	for _, k := range v.K {
+		for _, c := range k {
+			if c > 127 {
+				return false
+			}
+		}
+	}
+	for _, i := range v.I {
+		if !isASCII(i) {
+			return false
+		}
+	}
+	return true
+}
+
+// usesUnmodelled: a function value outside the modelled set cannot be called by the model
+func usesUnmodelled(v VSpec) bool {
+	if v.T == "fn" {
+		_, ok := modelledFns[v.S]
+		return !ok
+	}
+	for _, i := range v.I {
+		if usesUnmodelled(i) {
+			return true
+		}
+	}
+	return false
+}
+
+func corrTasks(r *hx.Rand, o *hx.Opts) []*task {
+	all, ints, texts := corrPool()
+	byName := map[string]VSpec{}
+	for _, v := range all {
+		byName[v.N] = v
+	}
+	P := func(names ...string) []VSpec {
+		out := make([]VSpec, len(names))
+		for i, n := range names {
+			v, ok := byName[n]
+			if !ok {
+				v, ok = adHocValue(n)
+			}
+			if !ok {
+				panic("no corr pool value " + n)
+			}
+			out[i] = v
+		}
+		return out
+	}
+	corpus := map[string][][]VSpec{
+		"word":            {P("'bee.cat,dog'", "0"), P("'bee.cat,dog'", "-1"), P("'bee.cat,dog'", "3"), P("'bee.cat,dog'", "-4"), P("'bee.cat,dog'", "1", "'.*=|,'"), P("'bee.cat,dog'", "1", "nil"), P("'abc def ghi'", "18446744073709551616"), P("''", "0"), P("'abc def ghi'", "1", "''", "1")},
+		"word_slice":      {P("'abc def ghi'", "0", "1"), P("'abc def ghi'", "1", "-1"), P("'abc def ghi'", "1"), P("'abc def ghi'", "3", "10"), P("'abc def ghi'", "2", "1"), P("'abc def ghi'", "0", "0"), P("'abc def ghi'", "1", "0"), P("'abc def ghi'", "-1"), P("'abc def ghi'", "1", "2147483647"), P("'bee.cat,dog'", "1", "-1", "'.*=|,'"), P("'bee.cat,dog'", "1", "-1", "nil"), P("'abc def ghi'", "2", "2")},
+		"field":           {P("'a,b,,c'", "1", "','"), P("'a,b,,c'", "2", "','"), P("'a,b,,c'", "4", "','"), P("'  a   b c '", "1", "' '"), P("'a,b,,c'", "1", "''"), P("''", "0", "''"), P("''", "0", "','"), P("'a,b,,c'", "-1", "','"), P("'aaaa'", "1", "'aa'"), P("'a,b,,c'", "18446744073709551619", "','")},
+		"text_slice":      {P("'hello world'", "2"), P("'hello world'", "1", "3"), P("'hello world'", "-3", "-1"), P("'hello world'", "7", "100"), P("'hello world'", "-100", "3"), P("'hello world'", "3", "1"), P("'hello world'", "1", "3", "5"), P("'hello world'", "2147483647"), P("'hello world'", "-2147483648", "2147483647")},
+		"char":            {P("65.9"), P("128512"), P("-1"), P("55296"), P("1114112"), P("18446744073709551616"), P("2147483648"), P("0"), P("36893488147419103233")},
+		"repeat":          {P("'ab'", "3"), P("''", "2147483647"), P("'ab'", "0"), P("'ab'", "-1"), P("'ab'", "18446744073709551619"), P("'ab'", "2147483648"), P("nil", "5"), P("1.50", "2")},
+		"replace":         {P("'foo bar foo'", "'foo'", "'zap'"), P("'foo bar foo'", "'foo'", "'zap'", "1"), P("'foo bar foo'", "'foo'", "'zap'", "0"), P("'foo bar foo'", "''", "'zap'", "2"), P("'ab'", "''", "','"), P("'aaaa'", "'aa'", "'a'"), P("'foo'", "'foo'", "''", "-5"), P("''", "''", "'zap'")},
+		"round":           {P("2.5"), P("-2.5"), P("2.675", "2"), P("-2.675", "2"), P("1234567.891", "-3"), P("0.005", "2"), P("-0.005", "2"), P("1.5", "100"), P("1.5", "101"), P("1.5", "-100"), P("1.5", "-101"), P("1E-100", "99"), P("5E+20", "-21"), P("0.0049", "2")},
+		"round_up":        {P("2.5"), P("-2.5"), P("2.1"), P("-2.1"), P("2.0"), P("1234.001", "2"), P("1234.001", "-2"), P("0.0049", "2"), P("1.5", "101"), P("10.0", "1")},
+		"round_down":      {P("2.5"), P("-2.5"), P("2.9"), P("-2.9"), P("2.0"), P("1234.999", "2"), P("1234.999", "-2"), P("1.5", "-101"), P("7.00", "1")},
+		"mod":             {P("5", "2"), P("-5", "2"), P("5", "-2"), P("5.5", "2"), P("5", "0"), P("5", "0.0"), P("0", "5"), P("1000000000000000000000000000000", "0.000000000000000000000000000001"), P("0.125", "0.01"), P("7", "'x'")},
+		"mean":            {{}, P("1"), P("1", "2"), P("1", "2", "4"), P("-1", "-2"), P("0.125", "33.333333333333333", "2.675"), P("1", "'2'", "nil"), P("1000000000000000000000000000000", "0.000000000000000000000000000001"), P("1", "2", "2"), P("-1", "-2", "-2"), P("0.5", "0.5", "0.5", "0.5", "0.5", "0.6")},
+		"max":             {{}, P("1"), P("1", "3", "2"), P("1.0", "1"), P("1", "1.0"), P("-1", "nil"), P("'2'", "10")},
+		"min":             {{}, P("1"), P("3", "1", "2"), P("1.0", "1"), P("1", "1.0"), P("error", "1")},
+		"percent":         {P("0.54234"), P("1.2"), P("-0.015"), P("0.005"), P("-0.005"), P("1000000000000000000000000000000"), P("92233720368547758.08"), P("184467440737095516.16"), P("0")},
+		"format_number":   {P("1234567.891"), P("1.5", "0"), P("1.5", "9"), P("1.5", "10"), P("1.5", "-1"), P("1.5", "2", "false"), P("1.5", "2", "error"), P("1.5", "2", "nil", "1"), P("'x'")},
+		"date_from_parts": {P("2017", "1", "15"), P("2017", "0", "15"), P("2017", "13", "15"), P("2147483647", "12", "2147483647"), P("2147483648", "1", "1"), P("2017", "1")},
+		"time_from_parts": {P("3", "0", "0"), P("24", "0", "0"), P("0", "60", "0"), P("0", "0", "60"), P("-1", "0", "0"), P("0", "0", "0", "0")},
+		"datetime_add":    {P("dt:2018", "1", "'D'"), P("dt:2018", "2147483647", "'s'"), P("dt:2018", "2147483648", "'s'"), P("dt:2018", "1", "'X'"), P("dt:2018", "1", "'ss'"), P("dt:2018", "1", "''"), P("dt:2018", "1"), P("dt:2018", "1", "'D'", "1"), P("nil", "1", "'D'"), {}},
+		"array":           {{}, P("1", "'a'", "nil"), P("1", "error", "2"), P("[1,2,3]", "{}")},
+		"object":          {{}, P("'a'"), P("'a'", "1"), P("'a'", "1", "'a'", "2"), P("'b'", "1", "'a'", "2"), P("'a'", "error"), P("nil", "1"), P("1.50", "2"), P("'__default__'", "7", "'a'", "1"), P("'a'", "1", "'b'")},
+		"extract_object":  {P("{a:1,b:'x'}", "'a'"), P("{a:1,b:'x'}", "'b'", "'a'", "'b'"), P("{a:1,b:'x'}", "'A'"), P("{A:2,a:1}", "'a'"), P("{a:1,b:'x'}", "'zz'"), P("{a:1,b:'x'}"), P("nil", "'a'"), P("[1,2,3]", "'a'"), P("{a:1,b:'x'}", "error"), P("{a:1,b:'x'}", "nil"), P("{__default__:5,a:1}", "'a'", "'__default__'")},
+		"foreach":         {P("[1,2,3]", "fn:char"), P("['a',nil,1.50]", "fn:repeat", "2"), P("[1,2,3]", "fn:mod", "0"), P("[1,2,3]", "fn:mod", "2"), P("[[1],[2,[3]]]", "fn:foreach", "fn:array"), P("[[1],[2,[3]]]", "fn:foreach", "fn:foreach", "fn:array"), P("[1,2,3]", "fn:foreach", "fn:array"), P("[1,2,3]", "1"), P("[1,2,3]"), P("nil", "fn:word"), P("[]", "fn:word"), P("[1,2,3]", "fn:word", "0"), P("[1,2,3]", "fn:round", "1"), P("[err]", "fn:array"), P("[1,2,3]", "fn:mean")},
+		"has_group":       {P("groups", "'uuid-1'"), P("groups", "'a'"), P("groups", "'zz'"), P("groups", "'uuid-1'", "'x'"), P("groups"), P("[1,2,3]", "'a'"), P("[obj,3]", "3"), P("[obj,3]", "4"), P("nil", "'a'"), P("{}", "'a'"), P("groups", "error"), P("[]", "''")},
+	}
+	opCorpus := [][]VSpec{P("1", "0"), P("1", "0.0"), P("1", "3"), P("2", "3"), P("-2", "3"), P("0.125", "33.333333333333333"), P("1000000000000000000000000000000", "0.000000000000000000000000000001"),
+		P("1.50", "1.5"), P("'a'", "1.50"), P("nil", "nil"), P("error", "1"), P("1", "error"), P("[1,2,3]", "1"), P("{__default__:5,a:1}", "2"), P("true", "'true'"), P("1E3", "1000"), P("5E+20", "1E-100")}
+
+	n := o.Count(2500, 60000)
+	var tasks []*task
+	cur := &task{name: "corr"}
+	add := func(c *Call) {
+		if len(cur.calls) >= 400 {
+			tasks = append(tasks, cur)
+			cur = &task{name: "corr"}
+		}
+		cur.calls = append(cur.calls, c)
+	}
+	fnNames := hx.SortedKeys(modelledFns)
+	seen := map[string]bool{}
+	addCall := func(kind, fn string, args []VSpec) {
+		c := &Call{Kind: kind, Fn: fn, Args: args}
+		if !corrEligible(c) || seen[c.key()] {
+			return
+		}
+		seen[c.key()] = true
+		add(c)
+	}
+	for _, fn := range fnNames {
+		for _, args := range corpus[fn] {
+			addCall("call", fn, args)
+		}
+	}
+	for _, op := range hx.SortedKeys(corrOps) {
+		for _, args := range opCorpus {
+			addCall("op", op, args)
+		}
+	}
+	arityOf := map[string][2]int{"word": {2, 3}, "word_slice": {2, 4}, "field": {3, 3}, "text_slice": {2, 4}, "char": {1, 1}, "repeat": {2, 2}, "replace": {3, 4},
+		"round": {1, 2}, "round_up": {1, 2}, "round_down": {1, 2}, "mod": {2, 2}, "mean": {1, 4}, "max": {1, 4}, "min": {1, 4}, "percent": {1, 1}, "format_number": {1, 3},
+		"date_from_parts": {3, 3}, "time_from_parts": {3, 3}, "datetime_add": {3, 3}, "array": {0, 4}, "object": {0, 4}, "extract_object": {2, 4}, "foreach": {2, 4}, "has_group": {2, 3}}
+	pick := func(rr *hx.Rand, fn string, pos int) VSpec {
+		// position-aware: mostly the kind the function wants there, sometimes anything
+		if rr.Chance(1, 6) {
+			return hx.Pick(rr, all)
+		}
+		textFirst := map[string]bool{"word": true, "word_slice": true, "field": true, "text_slice": true, "repeat": true, "replace": true}
+		switch {
+		case textFirst[fn] && pos == 0:
+			if unicodeOK[fn] && rr.Chance(1, 5) {
+				return hx.Pick(rr, nonASCIITexts)
+			}
+			return hx.Pick(rr, texts)
+		case fn == "replace" && pos <= 2, fn == "field" && pos == 2, (fn == "word" && pos == 2), (fn == "word_slice" && pos == 3), fn == "datetime_add" && pos == 2:
+			return hx.Pick(rr, texts)
+		case fn == "datetime_add" && pos == 0:
+			return byName["dt:2018"]
+		case fn == "extract_object" && pos == 0:
+			return hx.Pick(rr, P("{a:1,b:'x'}", "{A:2,a:1}", "{n:{m:[1,2]}}", "{}", "{__default__:5,a:1}"))
+		case fn == "extract_object":
+			return hx.Pick(rr, P("'a'", "'A'", "'b'", "'foo'", "'UUID'", "nil", "1"))
+		case fn == "has_group" && pos == 0, fn == "foreach" && pos == 0:
+			return hx.Pick(rr, P("groups", "[1,2,3]", "['a',nil,1.50]", "[[1],[2,[3]]]", "[obj,3]", "[]", "nil"))
+		case fn == "foreach" && pos == 1:
+			return hx.Pick(rr, P("fn:word", "fn:repeat", "fn:mod", "fn:foreach", "fn:array", "fn:round", "fn:char", "fn:text_slice", "fn:mean"))
+		case fn == "has_group":
+			return hx.Pick(rr, P("'uuid-1'", "'a'", "'UUID'", "3", "nil"))
+		case fn == "object" && pos%2 == 0:
+			return hx.Pick(rr, P("'a'", "'b'", "'A'", "'__default__'", "1.50", "nil"))
+		}
+		if rr.Chance(1, 4) {
+			return hx.Pick(rr, all)
+		}
+		return hx.Pick(rr, ints)
+	}
+	perFn := n / (len(fnNames) + 6)
+	for _, fn := range fnNames {
+		rr := r.Fork(fn)
+		ar := arityOf[fn]
+		for i := 0; i < perFn; i++ {
+			k := rr.Range(ar[0], ar[1])
+			if rr.Chance(1, 10) {
+				k = rr.Range(0, 5)
+			}
+			args := make([]VSpec, k)
+			for j := range args {
+				args[j] = pick(rr, fn, j)
+			}
+			addCall("call", fn, args)
+		}
+	}
+	ro := r.Fork("ops")
+	for i := 0; i < perFn*3; i++ {
+		op := hx.Pick(ro, hx.SortedKeys(corrOps))
+		addCall("op", op, []VSpec{hx.Pick(ro, all), hx.Pick(ro, all)})
+	}
+	for i := 0; i < perFn; i++ {
+		addCall("op", "op:neg", []VSpec{hx.Pick(ro, all)})
+	}
+	rl := r.Fork("lookup")
+	containers := P("[1,2,3]", "['a',nil,1.50]", "[]", "{a:1,b:'x'}", "{A:2,a:1}", "{}", "{__default__:5,a:1}", "'abc def ghi'", "nil", "5", "groups")
+	for i := 0; i < perFn*2; i++ {
+		c := hx.Pick(rl, containers)
+		if rl.Chance(1, 3) {
+			addCall("lookup", "dot:"+hx.Pick(rl, []string{"a", "A", "b", "zz", "0", "1", "2", "3", "99"}), []VSpec{c})
+		} else {
+			l := hx.Pick(rl, ints)
+			if rl.Chance(1, 3) {
+				l = hx.Pick(rl, P("'a'", "'A'", "'b'", "'foo'", "'2'", "' 3 '", "nil", "true"))
+			}
+			addCall("lookup", "idx", []VSpec{c, l})
+		}
+	}
+	if len(cur.calls) > 0 {
+		tasks = append(tasks, cur)
+	}
+	return tasks
+}
+
+// corrEligible: is the call inside what the model represents exactly (and small)?
+func corrEligible(c *Call) bool {
+	for _, a := range c.Args {
+		if a.T == "json" || a.T == "anon" || a.T == "date" || a.T == "time" || usesUnmodelled(a) {
+			return false
+		}
+		if !isASCII(a) && !(c.Kind == "call" && unicodeOK[c.Fn]) && !(c.Kind == "op") {
+			return false
+		}
+	}
+	if c.Kind == "call" && c.Fn == "repeat" && len(c.Args) == 2 {
+		if n, ok := approxNumber(c.Args[1]); ok && approxRenderLen(c.Args[0]) > 0 {
+			// a large count that passes ToInteger makes a large text: the model would build it as well
+			ip := new(big.Int).Set(n.BigInt())
+			low := new(big.Int).And(new(big.Int).Abs(ip), new(big.Int).SetUint64(^uint64(0)))
+			if low.Cmp(big.NewInt(2000)) > 0 && low.Cmp(new(big.Int).SetUint64(1<<63)) < 0 {
+				return false
+			}
+		}
+	}
+	if c.Kind == "call" && c.Fn == "foreach" {
+		// nested repeat with a large count: same reason
+		for _, a := range c.Args {
+			if n, ok := approxNumber(a); ok && n.Abs().Cmp(decimal.New(2000, 0)) > 0 && hasAmplifier(c.Args) {
+				return false
+			}
+		}
+	}
+	return true
+}
+
+// ---------------------------------------------------------------------------------------------
+// Coq printing
+
+func coqZ(s string) string {
+	if strings.HasPrefix(s, "-") {
+		return "(" + s + ")%Z"
+	}
+	return s + "%Z"
+}
+
+func coqDec(d decimal.Decimal) string {
+	return fmt.Sprintf("(Dec %s %s)", coqZ(d.Coefficient().String()), coqZ(fmt.Sprint(d.Exponent())))
+}
+
+func coqValue(v VSpec) string {
+	switch v.T {
+	case "nil":
+		return "VNil"
+	case "err":
+		return "VErr"
+	case "text":
+		return "(VText " + hx.Str(v.S) + ")"
+	case "num":
+		return "(VNum " + coqDec(decimal.RequireFromString(v.S)) + ")"
+	case "bool":
+		return "(VBool " + hx.Bool(v.B) + ")"
+	case "arr":
+		return "(VArray " + hx.List(v.I, coqValue) + ")"
+	case "obj":
+		def := "None"
+		type kv struct {
+			k string
+			v VSpec
+		}
+		var props []kv
+		for i := range v.I {
+			if v.K[i] == "__default__" {
+				def = "(Some " + coqValue(v.I[i]) + ")"
+			} else {
+				props = append(props, kv{v.K[i], v.I[i]})
+			}
+		}
+		sort.Slice(props, func(i, j int) bool { return props[i].k < props[j].k })
+		return "(VObject " + def + " " + hx.List(props, func(p kv) string { return "(" + hx.Str(p.k) + ", " + coqValue(p.v) + ")" }) + ")"
+	case "fn":
+		return "(VFunc " + modelledFns[v.S] + " " + hx.Str(v.S) + ")"
+	case "dt":
+		t, err := time.Parse(time.RFC3339Nano, v.S)
+		if err != nil {
+			panic(err)
+		}
+		return "(VOpaque KDateTime " + hx.Str(types.NewXDateTime(t).Render()) + ")"
+	}
+	panic("coqValue: unsupported spec type " + v.T)
+}
+
+var kindCoq = map[string]string{"nil": "KNil", "error": "KErr", "text": "KText", "number": "KNum", "boolean": "KBool", "array": "KArr", "object": "KObj",
+	"function": "KFn", "datetime": "KDT", "date": "KD", "time": "KT"}
+
+func coqImpl(c *Call, out Out) (string, bool) {
+	if out.St == "panic" {
+		return "IPanic", true
+	}
+	k, ok := kindCoq[out.RK]
+	if !ok {
+		return "", false
+	}
+	if c.Kind == "call" && kindOnly[c.Fn] {
+		return "(IKind " + k + ")", true
+	}
+	switch out.RK {
+	case "number":
+		return fmt.Sprintf("(INum %s %s)", coqZ(out.NC), coqZ(fmt.Sprint(out.NE))), true
+	case "text":
+		return "(IText " + hx.Str(out.RV) + ")", true
+	case "boolean":
+		return "(IBool " + out.RV + ")", true
+	case "array", "object":
+		return "(IRender " + k + " " + hx.Str(out.RV) + ")", true
+	}
+	return "(IKind " + k + ")", true
+}
+
+func coqTarget(c *Call) string {
+	switch c.Kind {
+	case "call":
+		return "(TCall " + modelledFns[c.Fn] + " " + hx.List(c.Args, coqValue) + ")"
+	case "op":
+		if c.Fn == "op:neg" {
+			return "(TNeg " + coqValue(c.Args[0]) + ")"
+		}
+		return "(TOp " + corrOps[c.Fn] + " " + coqValue(c.Args[0]) + " " + coqValue(c.Args[1]) + ")"
+	case "lookup":
+		if strings.HasPrefix(c.Fn, "dot:") {
+			return "(TLookup " + coqValue(c.Args[0]) + " (VText " + hx.Str(c.Fn[4:]) + ") true)"
+		}
+		return "(TLookup " + coqValue(c.Args[0]) + " " + coqValue(c.Args[1]) + " false)"
+	}
+	panic("coqTarget: " + c.Kind)
+}
+
+const corrHeader = `(* generated by harness/cmd/c04: calls on the real code and what they returned *)
+From Coq Require Import ZArith NArith List Bool.
+From Verif Require Import lib.Dec model.NumText model.ExValues model.ExEval model.ExEvalCorr.
+Import ListNotations.
+Open Scope N_scope.
+`
+
+func writeCorrespondence(tasks []*task, o *hx.Opts, res *hx.Result) {
+	var file *hx.CoqFile
+	var names []string
+	nfile := 0
+	flush := func() {
+		if file == nil {
+			return
+		}
+		file.Add("Definition cases : list case := [" + strings.Join(names, "; ") + "].")
+		file.Add("Definition M := Eval vm_compute in mismatches cases.")
+		file.Add("Print M.")
+		file.Save(o, res)
+		file, names = nil, nil
+	}
+	compared := 0
+	for _, t := range tasks {
+		if t.name != "corr" {
+			continue
+		}
+		for _, cr := range t.results {
+			if cr.skipped || cr.oc != ocOK || cr.resp == nil || len(cr.resp.Out) != 1 {
+				res.Dist("corr=skipped-no-answer")
+				continue
+			}
+			out := cr.resp.Out[0]
+			if out.RL > 20000 {
+				res.Dist("corr=skipped-large-result")
+				continue
+			}
+			impl, ok := coqImpl(cr.call, out)
+			if !ok {
+				res.Dist("corr=skipped-unknown-kind")
+				continue
+			}
+			if file == nil {
+				file = hx.NewCoqFile(fmt.Sprintf("cases_C04_%d.v", nfile), corrHeader)
+				nfile++
+			}
+			idx := len(names)
+			name := fmt.Sprintf("c%d", idx)
+			file.Add(fmt.Sprintf("Definition %s : case := Case %s %s.", name, coqTarget(cr.call), impl))
+			names = append(names, name)
+			res.Cases = append(res.Cases, hx.Case{File: file.Name, Index: idx, Input: cr.call, Impl: map[string]any{"state": out.St, "kind": out.RK, "value": abbreviate(out.RV, 200), "coefficient": out.NC, "exponent": out.NE}})
+			if cr.call.Kind == "lookup" {
+				res.Dist("corr=lookup")
+			} else {
+				res.Dist("corr=" + cr.call.Kind + ":" + cr.call.Fn)
+			}
+			compared++
+			if len(names) >= 350 {
+				flush()
+			}
+		}
+	}
+	flush()
+	res.Distribution["corr_compared"] = compared
+}
